@@ -411,7 +411,11 @@ func init() {
 		return nil, nil
 	})
 	reg(V+"Pointer", func(in *Interp, fn *ssa.Function, a []Value) (Value, *iPanic) {
-		panic(unsupported{"reflect.Value.Pointer outside modelled helpers"})
+		// the data pointer of a slice, as a pointer value travelling in a uintptr register
+		if sv, ok := rv(a[0]).V.(SliceV); ok {
+			return Pointer{O: sv.O, Off: sv.Off}, nil
+		}
+		panic(unsupported{"reflect.Value.Pointer of a non-slice"})
 	})
 	reg("(reflect.Kind).String", func(in *Interp, fn *ssa.Function, a []Value) (Value, *iPanic) {
 		k := a[0].(*sym.Term)
